@@ -357,12 +357,20 @@ func connIDOf(p *pipe) string {
 	return "c?"
 }
 
+// bgNamer, when set by a scenario, refines the identity of goroutines that carry no task id (rueidis' own
+// goroutines, e.g. the sentinel client's subscription goroutine versus its refresh goroutine, which reach the same
+// yield site on the same wire in the same step). nil (the default) leaves every identity as it was.
+var bgNamer atomic.Pointer[func() string]
+
 func yieldIdentity(ctx context.Context, site string, obj any, cmd []string) string {
 	who := sched.TaskID(ctx)
 	if who == "" || (!richIdent.Load() && (strings.HasPrefix(site, "fb.") || strings.HasPrefix(site, "ring."))) {
 		// (the queue hand-off seams carry the caller's context since hook commit c97e4fd; without richIdent they keep
 		// their historical identity so that event-log hashes and committed replay plans stay valid)
 		who = "bg"
+		if f := bgNamer.Load(); f != nil {
+			who = (*f)()
+		}
 	}
 	where := ""
 	switch o := obj.(type) {
